@@ -28,7 +28,7 @@ _Z13GetTimeMillisv _Z17GetProcessorCountv""".split()
 
 # libc entry points ninja may call without going through the simulation
 # (pure functions, stdio on cookie streams, formatting, memory).
-ALLOWED_UNWRAPPED_PREFIXES = ("_Z", "__cxa", "__gxx", "_Unwind", "__dynamic_cast", "__stack_chk",
+ALLOWED_UNWRAPPED_PREFIXES = ("_Z", "__cxa", "__gcov", "__gcda", "mangle_path", "__gxx", "_Unwind", "__dynamic_cast", "__stack_chk",
                               "__asan", "__ubsan", "__sanitizer", "_ITM", "__gmon", "__tls", "__dso_handle",
                               "_GLOBAL_OFFSET_TABLE_")
 ALLOWED_UNWRAPPED = set("""memchr memcmp memcpy memmove memset strlen strcmp strncmp strchr strrchr strpbrk strerror
@@ -54,6 +54,8 @@ def variant_flags(variant):
                ["-fsanitize=address,undefined"]
     if variant == "dbg":   # diagnosis only: ninja's internal asserts enabled
         return [c for c in common if c != "-DNDEBUG"] + ["-O0"], []
+    if variant == "cov":   # measurement only: which ninja code the simulated runs reach (tools/coverage.sh)
+        return common + ["-O0", "--coverage"], ["--coverage"]
     return common + ["-O1"], []
 
 
@@ -61,7 +63,7 @@ def gen(variant, src_override=None):
     """src_override: {basename: path} for counterfactual builds."""
     out = os.path.join(VERIF, "build", variant)
     os.makedirs(out, exist_ok=True)
-    kind = "san" if variant.startswith("san") else "dbg" if variant == "dbg" else "plain"
+    kind = "san" if variant.startswith("san") else variant if variant in ("dbg", "cov") else "plain"
     cflags, ldflags = variant_flags(kind)
     lines = ["ninja_required_version = 1.5",
              "cxx = g++",
